@@ -9,6 +9,7 @@ package main
 //             IEEE-754 bits decomposed into Flocq's canonical (kind, sign, mantissa, exponent).
 
 import (
+	"k8s.io/apimachinery/pkg/types"
 	"encoding/json"
 	"fmt"
 	"math"
@@ -772,7 +773,7 @@ func randCtrs(rng *rand.Rand, max int, malformed bool) []v1.Container {
 }
 
 func randPod(rng *rand.Rand, i int, nodeNames []string, malformed bool) *v1.Pod {
-	p := &v1.Pod{ObjectMeta: metav1.ObjectMeta{Name: fmt.Sprintf("p%d", i), Namespace: "ns"}}
+	p := &v1.Pod{ObjectMeta: metav1.ObjectMeta{Name: fmt.Sprintf("p%d", i), Namespace: "ns", UID: types.UID(fmt.Sprintf("uid-p%d", i))}} // UIDs repeat across cases with other requests (in-place resize)
 	p.Spec.Containers = randCtrs(rng, 4, malformed)
 	if rng.Intn(2) == 0 {
 		p.Spec.InitContainers = randCtrs(rng, 3, malformed)
@@ -863,7 +864,7 @@ func mkCtr(cpu, mem string) v1.Container {
 }
 
 func bPod(name, node string, phase v1.PodPhase, sched bool, ctrs, inits []v1.Container, overhead v1.ResourceList) *v1.Pod {
-	p := &v1.Pod{ObjectMeta: metav1.ObjectMeta{Name: name, Namespace: "ns"}}
+	p := &v1.Pod{ObjectMeta: metav1.ObjectMeta{Name: name, Namespace: "ns", UID: types.UID("uid-" + name)}}
 	p.Spec.Containers, p.Spec.InitContainers, p.Spec.Overhead, p.Spec.NodeName = ctrs, inits, overhead, node
 	p.Status.Phase = phase
 	if sched {
